@@ -347,6 +347,97 @@ def shallow_water_contract(en: E.Engine):
   ensure_expr(en, 'potential tendency == clip(-div_cos_lat(Phi u sec^2))', out.potential == CLIP(NEG(div(gq))))
 
 
+# ---- primitive-equation explicit tendencies: horizontal structure as operator expressions (C05 / C11) ---------------------------------------
+
+VADV = z3.Function('vertical_advection', Fld, Fld, Fld)            # centered_vertical_advection(w, x): its column contract is C13
+TOMEGA = z3.Function('t_omega_over_sigma_sp', Fld, Fld, Fld, Fld)  # _t_omega_over_sigma_sp(T, G, v.grad ln ps): its column contract is C05
+SIGINT = z3.Function('sigma_integral', Fld, Fld)                   # sigma_integral: C13
+
+
+def _clip_tree(x):
+  if isinstance(x, dict):
+    return {k: _clip_tree(v) for k, v in x.items()}
+  if isinstance(x, (tuple, list)):
+    return type(x)(_clip_tree(v) for v in x)
+  if isinstance(x, E.Obj):
+    return E.Obj(**{k: _clip_tree(v) for k, v in x.__dict__.items()})
+  return CLIP(x)
+
+
+def primitive_operator_contract(en: E.Engine):
+  """PrimitiveEquations.explicit_terms given the diagnostic state (whose vertical sums are the column clauses of C05): the momentum, kinetic-energy,
+  orography, advection and pressure terms are the documented operator expressions, summed as documented, and every tendency is clipped."""
+  _neg_fix(en)
+  import functools
+  import jax
+  import numpy as np
+  from dinosaur import primitive_equations as pe, sigma_coordinates as sc
+  from vlib.pyvc.libspec import _reg
+  g, r = _grid(en)
+  for nm, f in (('to_nodal', TON), ('to_modal', TOM), ('laplacian', LAP)):
+    setattr(g, nm, E.SymCallable(_lift(f), f'Grid.{nm} (uninterpreted, leaf-wise)'))
+  g.sec2_lat = SEC2F
+  g.clip_wavenumbers = E.SymCallable(lambda en_, x, n=1: _clip_tree(x), 'Grid.clip_wavenumbers leaf-wise over the state')
+  C = lambda nm: z3.Const(nm, Fld)
+  NZ, ND, NT, NU, NV, SDE, SDF, GX, GY, UG, NQ, TREF, OROG = (C(n) for n in ('nodal_vorticity', 'nodal_divergence', 'nodal_temperature_variation', 'cos_lat_u', 'cos_lat_v', 'sigma_dot_explicit',
+                                                                           'sigma_dot_full', 'grad_log_sp_x', 'grad_log_sp_y', 'u_dot_grad_log_sp', 'nodal_q', 'T_ref', 'orography'))
+  aux = E.Obj(vorticity=NZ, divergence=ND, temperature_variation=NT, cos_lat_u=(NU, NV), sigma_dot_explicit=SDE, sigma_dot_full=SDF, cos_lat_grad_log_sp=(GX, GY),
+              u_dot_grad_log_sp=UG, tracers={'q': NQ})
+  en.contracts[E._callable_key(pe.compute_diagnostic_state)] = lambda en_, state, coords: aux
+  en.trusted.add('callee contract: compute_diagnostic_state returns the nodal diagnostic fields (its vertical sums: column clauses of this property; transforms: C01 / C02)')
+  en.contracts[E._callable_key(sc.centered_vertical_advection)] = lambda en_, w, x, coords, **k: VADV(w, x)
+  en.contracts[E._callable_key(sc.sigma_integral)] = lambda en_, x, coords, **k: SIGINT(x)
+  en.contracts[E._callable_key(pe.State)] = lambda en_, **kw: E.Obj(**kw)
+  Rg, grav, kappa = en.real('ideal_gas_constant'), en.real('gravity'), en.real('kappa')
+  coords = E.Obj(horizontal=g, vertical=E.Obj(layers=en.int('layers')), dycore_sharding=None)
+  self = E.Obj(class_ref=pe.PrimitiveEquations, coords=coords, orography=OROG, coriolis_parameter=CORIOLIS, T_ref=TREF, include_vertical_advection=True,
+               vertical_advection=sc.centered_vertical_advection, physics_specs=E.Obj(R=Rg, g=grav, kappa=kappa),
+               _t_omega_over_sigma_sp=E.SymCallable(lambda en_, t, gt, v: TOMEGA(t, gt, v), '_t_omega_over_sigma_sp (column contract of this property)'))
+  flag = z3.Bool('reference_profile_varies')
+  _reg(en, np.unique, lambda en_, x: E.Obj(size=z3.If(flag, z3.IntVal(2), z3.IntVal(1))), 'np.unique(T_ref).size > 1 <=> the reference profile varies')
+  en.libspec[('attr', 'Fld', 'ravel')] = (None, lambda en_, x: E.SymCallable(lambda en__: x, 'ravel'))
+
+  def h_partial(en_, f, *a, **k):
+    return E.SymCallable(lambda en__, *b, **k2: en__.call(f, list(a) + list(b), dict(k, **k2)), 'functools.partial')
+  _reg(en, functools.partial, h_partial, 'functools.partial')
+
+  def tree_map(en_, f, *trees):
+    t0 = trees[0]
+    if isinstance(t0, dict):
+      return {k: tree_map(en_, f, *[t[k] for t in trees]) for k in t0}
+    kind, rr = en_.invoke(f, *trees)
+    if kind == 'raise':
+      raise E.PathRaise(rr)
+    return rr
+  _reg(en, jax.tree_util.tree_map, tree_map, 'jax.tree_util.tree_map over tracer dictionaries (leaf-wise; tuples are leaves here)')
+  en.libspec[('binop', 'Stack', 'Pow')] = (None, lambda en_, a, b: Stack(NMUL(x, x) for x in a) if b == 2 else (_ for _ in ()).throw(E.Unsupported('power')))
+  en.cover('requires: radius > 0')
+  kind, out = en.invoke(en.getattr(self, 'explicit_terms'), E.Obj(vorticity=C('zeta'), divergence=C('delta'), temperature_variation=C('T'), log_surface_pressure=C('lnps'), tracers={'q': C('q')}))
+  if kind == 'raise':
+    en.ensure(f'explicit_terms runs ({out})', False)
+    return
+  varies = en.truth(flag)
+  sec = lambda x: NMUL(x, SEC2F)
+  tv = ADD(NZ, CORIOLIS)
+  rt = SCALE(Rg, NT)
+  cu = TOM(ADD(sec(NMUL(NEG(NV), tv)), sec(ADD(NEG(VADV(SDF, NU)), NMUL(rt, GX)))))
+  cv = TOM(ADD(sec(NMUL(NU, tv)), sec(ADD(NEG(VADV(SDF, NV)), NMUL(rt, GY)))))
+  curl = NEG(DIVS(SUB(DLON(cv), SLDC(cu)), r))
+  div = NEG(DIVS(ADD(DLON(cu), SLDC(cv)), r))
+  ke = NEG(LAP(TOM(DIVS(NMUL(ADD(NMUL(NU, NU), NMUL(NV, NV)), SEC2F), z3.RealVal(2)))))
+  oro = NEG(SCALE(grav, LAP(OROG)))                     # -(g * laplacian(orography))
+  adv_nodal = lambda s_: NMUL(s_, ND)
+  adv_modal = lambda s_: NEG(DIVS(ADD(DLON(TOM(sec(NMUL(NU, s_)))), SLDC(TOM(sec(NMUL(NV, s_))))), r))
+  vert_T = ADD(VADV(SDF, NT), VADV(SDE, TREF)) if varies else VADV(SDF, NT)
+  adia = SCALE(kappa, ADD(TOMEGA(TREF, UG, UG), TOMEGA(NT, ADD(UG, ND), UG)))
+  ensure_expr(en, 'vorticity tendency == clip(-curl_cos_lat(C)), C = to_modal((zeta + f)(k x v) sec^2 + (-sigma_dot dv/dsigma + R T\' grad ln ps) sec^2)', out.vorticity == CLIP(curl))
+  ensure_expr(en, 'divergence tendency == clip(-div_cos_lat(C) - laplacian(|v|^2 sec^2 / 2) - g laplacian(orography))', out.divergence == CLIP(ADD(ADD(div, ke), oro)))
+  ensure_expr(en, f'temperature tendency == clip(to_modal(T\' delta + vertical advection + adiabatic term) - div_sec_lat(u T\', v T\')) [reference profile {"varies" if varies else "constant"}]',
+              out.temperature_variation == CLIP(ADD(TOM(ADD(ADD(adv_nodal(NT), vert_T), adia)), adv_modal(NT))))
+  ensure_expr(en, 'log-surface-pressure tendency == clip(to_modal(-sigma_integral(u . grad ln ps)))', out.log_surface_pressure == CLIP(TOM(NEG(SIGINT(UG)))))
+  ensure_expr(en, 'tracer tendency == clip(to_modal(vertical advection + q delta) - div_sec_lat(u q, v q))', out.tracers['q'] == CLIP(ADD(TOM(ADD(VADV(SDF, NQ), adv_nodal(NQ))), adv_modal(NQ))))
+
+
 def replay_wind(w):
   """Native: with clip=False the top total wavenumber of both wind components must carry the contribution of divergence and vorticity at
   l = L-2 (it is produced by the latitude derivative); compare against the same expression assembled from the elementary operators."""
@@ -420,6 +511,60 @@ def sw_clauses():
   rc = lambda c, n=2: (lambda ctx: run_contract(c, min_obligations=n, setup=_sw_setup, timeout_ms=30000))
   return [Clause('smt:ShallowWaterEquations.explicit_terms == vorticity-divergence form of the layered shallow-water equations as an operator expression; every tendency clipped, orography inside the clip (all fields, sizes, layer counts)', 'smt',
                  ['dinosaur.shallow_water.ShallowWaterEquations.explicit_terms', 'dinosaur.shallow_water.state_to_nodal', SH + 'get_cos_lat_vector'], rc(shallow_water_contract, 4), replay=replay_shallow_water, group='pyvc')]
+
+
+def replay_primitive(w):
+  """Native: PrimitiveEquations.explicit_terms against the same operator expression assembled from the Grid's elementary operators, the real
+  diagnostic state and the real vertical kernels (uneven levels, varying reference profile, orography, one tracer)."""
+  import numpy as np
+  import jax
+  jax.config.update('jax_enable_x64', True)
+  import jax.numpy as jnp
+  from dinosaur import coordinate_systems as cs, primitive_equations as pe, sigma_coordinates as sc, spherical_harmonic as sh
+  rng = np.random.RandomState(21)
+  g = sh.Grid(longitude_wavenumbers=5, total_wavenumbers=6, longitude_nodes=16, latitude_nodes=8)
+  vert = sc.SigmaCoordinates(np.array([0.0, 0.15, 0.4, 0.75, 1.0]))
+  coords = cs.CoordinateSystem(g, vert)
+  specs = pe.PrimitiveEquationsSpecs.from_si()
+  mask = np.asarray(g.mask)
+  oro = jnp.asarray(np.where(mask, 0.01 * rng.randn(*g.modal_shape), 0.0))
+  eq = pe.PrimitiveEquations(np.array([220.0, 240.0, 265.0, 280.0]), oro, coords, specs)
+  f = lambda n, s=1.0: jnp.asarray(np.where(mask, s * rng.randn(n, *g.modal_shape), 0.0))
+  st = pe.State(f(4).at[:, 0, 0].set(0.0), f(4).at[:, 0, 0].set(0.0), f(4), f(1, 0.1), {'q': f(4, 0.01)})
+  got = eq.explicit_terms(st)
+  aux = pe.compute_diagnostic_state(st, coords)
+  s2, R = g.sec2_lat, specs.R
+  u, v = aux.cos_lat_u
+  tv = aux.vorticity + eq.coriolis_parameter
+  gx, gy = aux.cos_lat_grad_log_sp
+  vadv = lambda w_, x: sc.centered_vertical_advection(w_, x, vert)
+  cu = g.to_modal(-v * tv * s2 + (-vadv(aux.sigma_dot_full, u) + R * aux.temperature_variation * gx) * s2)
+  cv = g.to_modal(u * tv * s2 + (-vadv(aux.sigma_dot_full, v) + R * aux.temperature_variation * gy) * s2)
+  clip = g.clip_wavenumbers
+  ke = -g.laplacian(g.to_modal((u * u + v * v) * s2 / 2))
+  adv_modal = lambda s_: -g.div_cos_lat((g.to_modal(u * s_ * s2), g.to_modal(v * s_ * s2)), clip=False)
+  T = aux.temperature_variation
+  ug = aux.u_dot_grad_log_sp
+  adia = specs.kappa * (eq._t_omega_over_sigma_sp(eq.T_ref, ug, ug) + eq._t_omega_over_sigma_sp(T, ug + aux.divergence, ug))
+  want = {
+      'vorticity': clip(-g.curl_cos_lat((cu, cv), clip=False)),
+      'divergence': clip(-g.div_cos_lat((cu, cv), clip=False) + ke - specs.g * g.laplacian(oro)),
+      'temperature_variation': clip(g.to_modal(T * aux.divergence + vadv(aux.sigma_dot_full, T) + vadv(aux.sigma_dot_explicit, eq.T_ref) + adia) + adv_modal(T)),
+      'log_surface_pressure': clip(g.to_modal(-sc.sigma_integral(ug, vert))),
+      'q': clip(g.to_modal(vadv(aux.sigma_dot_full, aux.tracers['q']) + aux.tracers['q'] * aux.divergence) + adv_modal(aux.tracers['q'])),
+  }
+  have = {'vorticity': got.vorticity, 'divergence': got.divergence, 'temperature_variation': got.temperature_variation, 'log_surface_pressure': got.log_surface_pressure, 'q': got.tracers['q']}
+  errs = {k: float(jnp.abs(have[k] - want[k]).max()) / max(1.0, float(jnp.abs(want[k]).max())) for k in want}
+  top = max(float(jnp.abs(a[..., g.total_wavenumbers - 1:]).max()) for a in have.values())
+  return max(errs.values()) > 1e-10 or top != 0.0, f'primitive explicit_terms vs the documented operator expression: relative differences {errs}; max |top-wavenumber entry| = {top:.3e}'
+
+
+def pe_clauses():
+  rc = lambda c, n=2: (lambda ctx: run_contract(c, min_obligations=n, setup=_sw_setup, timeout_ms=30000))
+  P = 'dinosaur.primitive_equations.PrimitiveEquations.'
+  return [Clause('smt:PrimitiveEquations.explicit_terms == documented operator expressions given the diagnostic state: momentum / kinetic energy / orography / advection / pressure terms summed as documented, every tendency clipped (all fields, sizes)', 'smt',
+                 [P + 'explicit_terms', P + 'curl_and_div_tendencies', P + 'kinetic_energy_tendency', P + 'orography_tendency', P + 'horizontal_scalar_advection', P + 'nodal_temperature_vertical_tendency',
+                  P + 'nodal_temperature_adiabatic_tendency', P + 'nodal_log_pressure_tendency', 'dinosaur.primitive_equations.div_sec_lat'], rc(primitive_operator_contract, 6), replay=replay_primitive, group='pyvc')]
 
 
 def clauses():
